@@ -13,6 +13,7 @@ import (
 
 	"verif/internal/kinds"
 	"verif/internal/load"
+	"verif/internal/norm"
 	"verif/internal/paths"
 	"verif/internal/report"
 )
@@ -183,6 +184,16 @@ func NameSinks(p *load.Program, tb *kinds.Table, slotKinds map[string]map[string
 	return res
 }
 
+// nsKeep: the functions of the resolver package that its rules interpret themselves.
+var nsPrims = map[string]bool{"ResolveName": true, "ResolveType": true, "AddAlias": true, "AddNamespacedName": true, "concatNameParts": true,
+	"NewNamespace": true, "ResolveAlias": true, "NewNamespaceResolver": true}
+
+func (im *Impl) nsNorm() {
+	if im.nz == nil {
+		im.UseNorm(func(fn *types.Func) bool { return nsPrims[fn.Name()] || im.Kinds.ByMethod[fn.Name()] != nil }, norm.Options{})
+	}
+}
+
 // access path evaluation -------------------------------------------------------------
 
 type apath struct {
@@ -192,6 +203,7 @@ type apath struct {
 }
 
 func (im *Impl) resolverFacts() (facts []resFact, undec []string) {
+	im.nsNorm()
 	for _, km := range func() []KM { k, _ := im.KindMethods(); return k }() {
 		fd := km.Decl
 		if len(fd.Body.List) == 0 {
@@ -200,7 +212,7 @@ func (im *Impl) resolverFacts() (facts []resFact, undec []string) {
 		recv := im.recvObj(fd)
 		n := im.paramObj(fd, 0)
 		env := map[types.Object]apath{n: {kind: km.Kind.Name}}
-		im.walkResolver(fd.Body, env, recv, km.Kind.Name, &facts, &undec)
+		im.walkResolver(im.Body(fd), env, recv, km.Kind.Name, &facts, &undec)
 	}
 	return
 }
@@ -363,18 +375,19 @@ func NsDeclarations(p *load.Program, tb *kinds.Table, rel, recv string) *report.
 		}
 		recvO := im.recvObj(fd)
 		found, okArgs := false, false
-		ast.Inspect(fd.Body, func(nd ast.Node) bool {
+		im.nsNorm()
+		ast.Inspect(im.Body(fd), func(nd ast.Node) bool {
 			call, ok := nd.(*ast.CallExpr)
 			if !ok {
 				return true
 			}
 			if name, ok := im.methodCall(call, recvO); ok && name == "AddNamespacedName" && len(call.Args) == 2 {
 				found = true
-				a0, a1 := exprString(call.Args[0]), exprString(call.Args[1])
+				a0, a1 := im.canon(fd, call.Args[0]), im.canon(fd, call.Args[1])
 				if kind == "StmtConstList" {
 					okArgs = strings.Contains(a1, a0+".(*ast.StmtConstant).Name.(*ast.Identifier).Value")
 				} else {
-					okArgs = a0 == "n" && a1 == "string(n.Name.(*ast.Identifier).Value)"
+					okArgs = a0 == "p1" && a1 == "string(p1.Name.(*ast.Identifier).Value)"
 				}
 			}
 			return true
@@ -388,15 +401,59 @@ func NsDeclarations(p *load.Program, tb *kinds.Table, rel, recv string) *report.
 			res.OK(key, im.pos(fd), kind, "declares "+want[kind]+" under the current namespace")
 		}
 	}
-	// AddNamespacedName: prefix with the namespace unless it is empty
+	// AddNamespacedName: on every path the node is mapped to name (namespace empty) or namespace + "\\" + name
 	if fd := im.Methods["AddNamespacedName"]; fd != nil {
-		src := nodeText(im, fd.Body)
-		ok := strings.Contains(src, `nsr.Namespace.Namespace == ""`) && strings.Contains(src, `nsr.Namespace.Namespace + "\\" + nodeName`) && strings.Count(src, "nsr.ResolvedNames[nn]") == 2 && strings.Contains(src, "\nnodeName\n")
-		res.Check(ok, "AddNamespacedName", im.pos(fd), "AddNamespacedName", `name or namespace + "\" + name`, "AddNamespacedName no longer maps the node to [namespace \\] name")
+		res.Check(im.checkAddNamespacedName(fd) == "", "AddNamespacedName", im.pos(fd), "AddNamespacedName", `name or namespace + "\" + name`, "AddNamespacedName no longer maps the node to [namespace \\] name: "+im.checkAddNamespacedName(fd))
 	} else {
 		res.Bad("AddNamespacedName", "-", "", "AddNamespacedName not found")
 	}
 	return res
+}
+
+// checkAddNamespacedName: path by path, ResolvedNames[node] receives the bare
+// name exactly when the current namespace is empty and namespace\name otherwise.
+func (im *Impl) checkAddNamespacedName(fd *ast.FuncDecl) string {
+	// here every helper is inlined, including the methods of Namespace
+	nz := norm.New(im.Pkg, norm.Options{Keep: func(fn *types.Func) bool { return fn.Name() == "concatNameParts" }})
+	ps, err := paths.Enumerate(nz.Body(fd))
+	if err != nil {
+		return err.Error()
+	}
+	const nsExpr = "recv.Namespace.Namespace"
+	for pi, path := range ps {
+		empty := "?"
+		var vals []string
+		for _, it := range path {
+			switch {
+			case it.Cond != nil:
+				c := im.canon(fd, it.Cond)
+				switch c {
+				case nsExpr + ` == ""`, `"" == ` + nsExpr, "len(" + nsExpr + ") == 0":
+					empty = map[bool]string{true: "yes", false: "no"}[it.Truth]
+				case nsExpr + ` != ""`, `"" != ` + nsExpr, "len(" + nsExpr + ") != 0", "len(" + nsExpr + ") > 0":
+					empty = map[bool]string{true: "no", false: "yes"}[it.Truth]
+				default:
+					return "condition " + c
+				}
+			case it.Stmt != nil:
+				if as, ok := it.Stmt.(*ast.AssignStmt); ok && len(as.Lhs) == 1 && len(as.Rhs) == 1 {
+					if im.canon(fd, as.Lhs[0]) == "recv.ResolvedNames[p1]" {
+						vals = append(vals, im.canon(fd, as.Rhs[0]))
+					}
+				}
+			}
+		}
+		if len(vals) != 1 {
+			return fmt.Sprintf("path %d stores the node %d times", pi, len(vals))
+		}
+		switch {
+		case empty == "yes" && vals[0] == "p2":
+		case empty == "no" && (vals[0] == nsExpr+` + "\\" + p2` || vals[0] == "("+nsExpr+` + "\\") + p2`):
+		default:
+			return fmt.Sprintf("path %d (namespace empty: %s) stores %s", pi, empty, vals[0])
+		}
+	}
+	return ""
 }
 
 func nodeText(im *Impl, n ast.Node) string {
@@ -435,7 +492,8 @@ func NamespaceSwitch(p *load.Program, tb *kinds.Table, rel, recv string) *report
 		res.Bad("StmtNamespace", "-", "", "no StmtNamespace method")
 		return res
 	}
-	ps, err2 := paths.Enumerate(fd.Body)
+	im.nsNorm()
+	ps, err2 := paths.Enumerate(im.Body(fd))
 	if err2 != nil {
 		res.Unknown("StmtNamespace", im.pos(fd), "StmtNamespace", "undecided:idiom: "+err2.Error())
 		return res
@@ -448,8 +506,8 @@ func NamespaceSwitch(p *load.Program, tb *kinds.Table, rel, recv string) *report
 		var assigned ast.Expr
 		for _, it := range path {
 			if it.Cond != nil {
-				if be, ok := it.Cond.(*ast.BinaryExpr); ok && exprString(be.X) == "n.Name" && im.isNil(be.Y) {
-					isNil := (be.Op == token.EQL) == it.Truth
+				if f, neq, ok := im.nilTest(it.Cond, func(e ast.Expr) (string, bool) { return im.fieldOf(e, im.paramObj(fd, 0)) }); ok && f == "Name" {
+					isNil := neq != it.Truth
 					nameNil = map[bool]string{true: "nil", false: "set"}[isNil]
 				} else {
 					nameNil = "other:" + exprString(it.Cond)
@@ -466,17 +524,17 @@ func NamespaceSwitch(p *load.Program, tb *kinds.Table, rel, recv string) *report
 			continue
 		}
 		call, ok := unparen(assigned).(*ast.CallExpr)
-		if !ok || exprString(call.Fun) != "NewNamespace" || len(call.Args) != 1 {
+		if fnObj, _ := typeutil.Callee(im.info(), call).(*types.Func); !ok || fnObj == nil || fnObj.Name() != "NewNamespace" || len(call.Args) != 1 {
 			res.Bad(key, im.pos(assigned), "StmtNamespace", "the namespace context is not a fresh NewNamespace(...): "+exprString(assigned))
 			continue
 		}
-		arg := exprString(call.Args[0])
+		arg := im.canon(fd, call.Args[0])
 		switch nameNil {
 		case "nil":
 			res.Check(arg == `""`, key, im.pos(assigned), "StmtNamespace", "no name: global namespace", "namespace without a name must switch to the global namespace, found "+arg)
 		case "set":
 			// concatNameParts(n.Name.(*ast.Name).Parts), possibly via a local
-			okArg := strings.HasPrefix(arg, "concatNameParts(")
+			okArg := arg == "concatNameParts(p1.Name.(*ast.Name).Parts)"
 			res.Check(okArg, key, im.pos(assigned), "StmtNamespace", "named namespace: fresh context named after the declaration", "the new context is not named after the declared namespace: "+arg)
 		default:
 			res.Unknown(key, im.pos(fd), "StmtNamespace", "undecided:idiom: condition "+nameNil)
@@ -513,10 +571,11 @@ func AliasKeyAgreement(p *load.Program, rel string) *report.RuleResult {
 		return res
 	}
 	info := pk.TypesInfo
+	nz := norm.New(pk, norm.Options{Keep: func(fn *types.Func) bool { return fn.Name() == "concatNameParts" }})
 	// evaluate both functions for every (alias type, qualified?) combination over the 2-point domain {raw, lower}
 	type outcome struct{ table, key string }
 	eval := func(fd *ast.FuncDecl, aliasType string, qualified bool) (outcome, string) {
-		ps, err := paths.Enumerate(fd.Body)
+		ps, err := paths.Enumerate(nz.Body(fd))
 		if err != nil {
 			return outcome{}, err.Error()
 		}
@@ -595,8 +654,12 @@ func AliasKeyAgreement(p *load.Program, rel string) *report.RuleResult {
 						if qualified != it.Truth {
 							feasible = false
 						}
-					case strings.HasPrefix(c, "!ok") || c == "ok":
-						// lookup result: both outcomes are fine
+					case isBin && be.Op == token.EQL && strings.HasPrefix(exprString(be.X), "len(") && exprString(be.Y) == "1":
+						if qualified == it.Truth {
+							feasible = false
+						}
+					case isBoolLocal(info, it.Cond):
+						// lookup result (the ok of a map access): both outcomes are fine
 					default:
 						return outcome{}, "condition " + c
 					}
@@ -699,6 +762,24 @@ func AliasKeyAgreement(p *load.Program, rel string) *report.RuleResult {
 	return res
 }
 
+// isBoolLocal: e is x or !x for a local boolean variable.
+func isBoolLocal(info *types.Info, e ast.Expr) bool {
+	e = unparen(e)
+	if ue, ok := e.(*ast.UnaryExpr); ok && ue.Op == token.NOT {
+		e = unparen(ue.X)
+	}
+	id, ok := e.(*ast.Ident)
+	if !ok {
+		return false
+	}
+	v, ok := info.Uses[id].(*types.Var)
+	if !ok || v.IsField() || v.Parent() == nil || v.Parent() == v.Pkg().Scope() {
+		return false
+	}
+	b, ok := v.Type().Underlying().(*types.Basic)
+	return ok && b.Kind() == types.Bool
+}
+
 // SpecialNames: the names left unqualified.
 func SpecialNames(p *load.Program, rel string) *report.RuleResult {
 	res := report.NewResult("special-names")
@@ -713,6 +794,10 @@ func SpecialNames(p *load.Program, rel string) *report.RuleResult {
 		return res
 	}
 	info := pk.TypesInfo
+	nz := norm.New(pk, norm.Options{Keep: func(fn *types.Func) bool { return fn.Name() == "concatNameParts" || fn.Name() == "ResolveAlias" }})
+	body := nz.Body(fd)
+	names := CanonNames(info, fd)
+	canon := func(e ast.Expr) string { return norm.Canon(info, e, names) }
 	// collect string constants compared with a lower-cased single part, grouped by the alias-type guard around them
 	got := map[string]map[string]bool{"": {}, "const": {}}
 	var walk func(n ast.Node, guard string)
@@ -721,14 +806,14 @@ func SpecialNames(p *load.Program, rel string) *report.RuleResult {
 			switch x := nd.(type) {
 			case *ast.IfStmt:
 				g := guard
-				c := exprString(x.Cond)
-				if strings.Contains(c, `aliasType == "const"`) {
+				c := canon(x.Cond)
+				if strings.Contains(c, `p2 == "const"`) {
 					g = "const"
-				} else if strings.Contains(c, `aliasType == ""`) {
+				} else if strings.Contains(c, `p2 == ""`) {
 					g = ""
 				}
-				if g != guard || strings.Contains(c, "aliasType") {
-					if !strings.Contains(c, "len(n.Parts) == 1") {
+				if g != guard || strings.Contains(c, "p2") {
+					if !strings.Contains(c, "len(p1.Parts) == 1") {
 						res.Bad("guard/"+g, p.Pos(x.Pos()), "ResolveName", "special names must only apply to single-part names: "+c)
 					}
 					walk(x.Body, "in:"+g)
@@ -760,7 +845,7 @@ func SpecialNames(p *load.Program, rel string) *report.RuleResult {
 			return true
 		})
 	}
-	walk(fd.Body, "")
+	walk(body, "")
 	oracle := map[string][]string{
 		"":      {"self", "static", "parent", "int", "float", "bool", "string", "void", "iterable", "object"},
 		"const": {"true", "false", "null"},
@@ -792,8 +877,16 @@ func SpecialNames(p *load.Program, rel string) *report.RuleResult {
 		}
 	}
 	// the comparison uses the lower-cased part
-	src := nodeTextAll(fd.Body)
-	res.Check(strings.Count(src, "strings.ToLower(string(n.Parts[0].(*ast.NamePart).Value))") >= 2, "lowercase", p.Pos(fd.Pos()), "ResolveName", "special names are matched case-insensitively", "special names are not matched against the lower-cased name part")
+	var sb strings.Builder
+	ast.Inspect(body, func(nd ast.Node) bool {
+		if e, ok := nd.(ast.Expr); ok {
+			sb.WriteString(canon(e))
+			sb.WriteString("\n")
+		}
+		return true
+	})
+	src := sb.String()
+	res.Check(strings.Count(src, "strings.ToLower(string(p1.Parts[0].(*ast.NamePart).Value))") >= 2, "lowercase", p.Pos(fd.Pos()), "ResolveName", "special names are matched case-insensitively", "special names are not matched against the lower-cased name part")
 	return res
 }
 
